@@ -3,7 +3,7 @@ from vf.common import Check, assert_repo_import, tier, seed
 from vf import gen, e1run, hooks
 
 KINDS = ("hook_count", "hook_order", "under_constrained", "over_constrained", "returned_values_violate", "nonrandom_changed",
-         "spurious_failure", "missed_failure", "other_exception")
+         "spurious_failure", "missed_failure", "other_exception", "list_facade")
 
 
 def main():
@@ -24,7 +24,7 @@ def main():
               "non-random sub-sub-object, on list elements, on two roots, and an unsatisfiable call")
     specs = gen.c17_programs(tier(), seed())
     chk.extra["rule"] = "one evaluation = one call with hook log and formula decided; distinct = distinct (tree shape, call)"
-    e1run.run_specs(chk, specs, KINDS, opts={"hooks": [hooks.prepost_hook]})
+    e1run.run_specs(chk, specs, KINDS, opts={"hooks": [hooks.prepost_hook], "check_lists": True})
     chk.finish()
 
 
